@@ -309,12 +309,15 @@ class VM:
         except _ScriptThrow as signal:
             # A callback run by a native threw past that native: deliver it here.
             self._throw(signal.value, locate=False)
-        except JSTypeError as e:
-            # Convert Python JSTypeError to JavaScript TypeError
-            self._handle_python_exception("TypeError", str(e))
-        except JSReferenceError as e:
-            # Convert Python JSReferenceError to JavaScript ReferenceError
-            self._handle_python_exception("ReferenceError", str(e))
+        except (TimeLimitError, MemoryLimitError):
+            raise
+        except JSError as e:
+            # Errors raised by native code become catchable objects of the
+            # matching constructor; a plain JSError is an uncaught script
+            # exception on its way out and passes through.
+            if type(e) is JSError or e.name not in self.globals:
+                raise
+            self._handle_python_exception(e.name, e.message)
 
     def _execute_opcode(self, op: OpCode, arg: Optional[int], frame: CallFrame) -> None:
         """Execute a single opcode."""
